@@ -1,7 +1,50 @@
-(* Observation commands: filled in by the corresponding property work; definitions only. *)
+(* Observation commands of the licence domain (C19).  Definitions only: imports the model and the generated table, no lemma file. *)
 From Coq Require Import List NArith Bool String.
 Import ListNotations.
-Require Import Show.
+Require Import Show LicModel LicTop.
 Open Scope N_scope.
 
-Definition run_lic (cmd : list N) (args : list (list N)) : option (list N) := None.
+(* l.canon s  ->  OK|<result>  |  E (InvalidLicenseExpression)  |  L|<result> (nesting depth 101..200: OK|<result> or E, interpreter
+   dependent)  |  !EXC:KeyError *)
+Definition obs_canon (s : list N) : list N :=
+  match canonicalize_license_expression s with
+  | Ok o => asc "OK|" ++ o
+  | Err => asc "E"
+  | Limit o => asc "L|" ++ o
+  | Crash => asc "!EXC:KeyError"
+  end.
+
+(* l.sweep mode joiner m prefix w0 w1 ...: every sequence  prefix ++ suffix,  suffix of length 0..m over the words w0 w1 ... (shorter
+   suffixes first, then lexicographic), joined with `joiner` and run through the whole model: one character per sequence,
+   1 = accepted, 0 = rejected, ? = anything else; with mode "o" followed by "|" and every accepted result, each ended by "\n".
+   prefix is a string of digits indexing the words. *)
+Fixpoint seqs (n : nat) (alpha : list (list N)) : list (list (list N)) :=
+  match n with O => [[]] | S m => flat_map (fun w => map (cons w) (seqs m alpha)) alpha end.
+Fixpoint upto (n : nat) : list nat := match n with O => [O] | S m => upto m ++ [n] end.
+Definition obs_sweep (mode joiner : list N) (m : N) (prefix : list N) (words : list (list N)) : list N :=
+  let pre := map (fun c => nth (N.to_nat (c - 48)) words []) prefix in
+  let rs := flat_map (fun n => map (fun suf => canonicalize_license_expression (join joiner (pre ++ suf))) (seqs n words)) (upto (N.to_nat m)) in
+  map (fun r => match r with Ok _ => 49 | Err => 48 | _ => 63 end) rs ++
+  (if seqb mode (asc "o") then 124 :: flat_map (fun r => match r with Ok o => o ++ [10] | _ => [] end) rs else []).
+
+(* l.evalsweep m prefix: the eval() component alone.  Every skeleton  prefix ++ suffix  (suffix of length 0..m over False or and ( ),
+   shorter first, then lexicographic; prefix = digits indexing these five) that the code can actually pass to eval(), i.e. that the
+   first loop produces from the corresponding tokens without raising: one character each, 1 = py_eval says "value False",
+   0 = "raises / not False", ? = interpreter dependent; preceded by their number and ":". *)
+Definition ptoks : list ptok := [PF; POr; PAnd; PL; PR].
+Definition ptok_word (p : ptok) : list N :=
+  match p with PF => asc "x" | POr => asc "or" | PAnd => asc "and" | PL => asc "(" | PR => asc ")" end.
+Fixpoint pseqs (n : nat) : list (list ptok) :=
+  match n with O => [[]] | S m => flat_map (fun p => map (cons p) (pseqs m)) ptoks end.
+Definition obs_evalsweep (m : N) (prefix : list N) : list N :=
+  let pre := map (fun c => nth (N.to_nat (c - 48)) ptoks PF) prefix in
+  let all := flat_map (fun n => map (fun suf => pre ++ suf) (pseqs n)) (upto (N.to_nat m)) in
+  let passing := filter (fun ps => match skeleton None (map ptok_word ps) with Some _ => true | None => false end) all in
+  show_N (N.of_nat (List.length passing)) ++ [58] ++
+  map (fun ps => match py_eval ps with EvFalse => 49 | EvBad => 48 | EvLimit => 63 end) passing.
+
+Definition run_lic (cmd : list N) (args : list (list N)) : option (list N) :=
+  if seqb cmd (asc "l.canon") then Some (obs_canon (nth_str 0 args))
+  else if seqb cmd (asc "l.sweep") then Some (obs_sweep (nth_str 0 args) (nth_str 1 args) (parse_N (nth_str 2 args)) (nth_str 3 args) (skipn 4 args))
+  else if seqb cmd (asc "l.evalsweep") then Some (obs_evalsweep (parse_N (nth_str 0 args)) (nth_str 1 args))
+  else None.
